@@ -81,10 +81,32 @@ func (c *LimitParallelRequests) acquireEndpoint(ctx context.Context, endpointLim
 	})
 	select {
 	case <-ctx.Done():
-		c.releaseEndpoint(endpointLimitKey)
+		c.cancelEndpoint(endpointLimitKey, reqChan)
 		return ctx.Err()
 	case <-reqChan:
 		return nil
+	}
+}
+
+// cancelEndpoint withdraws a waiter whose context ended: a waiter that is still queued owns no slot and
+// only leaves the queue, one that was already admitted gives its slot back.
+func (c *LimitParallelRequests) cancelEndpoint(endpointLimitKey uint64, reqChan chan struct{}) {
+	queued := false
+	_, _ = c.endpointQueues.ReplaceWithFunc(endpointLimitKey, func(oldValue *endpointQueue, oldLoaded bool) (newValue *endpointQueue, doDelete bool) {
+		if !oldLoaded {
+			return nil, true
+		}
+		for i, ch := range oldValue.orderedRequest {
+			if ch == reqChan {
+				oldValue.orderedRequest = append(oldValue.orderedRequest[:i], oldValue.orderedRequest[i+1:]...)
+				queued = true
+				break
+			}
+		}
+		return oldValue, false
+	})
+	if !queued {
+		c.releaseEndpoint(endpointLimitKey)
 	}
 }
 
